@@ -14,6 +14,7 @@ var Registry = map[string]PropRun{
 	"C07": {"other", RunC07},
 	"C08": {"other", RunC08},
 	"C09": {"other", RunC09},
+	"C10": {"other", RunC10},
 	"C11": {"other", RunC11},
 	"C13": {"other", RunC13},
 	"C16": {"other", RunC16},
